@@ -281,7 +281,7 @@ def mutate(rng, root, tree, kind, protect=()):
         del tree[r]
         return {"kind": kind, "path": r, "class": "removed"}
     if kind == "delete_empty_dir":
-        cand = [d for d in dirs if not any(k.startswith(d + "/") for k in tree)]
+        cand = [d for d in dirs if not any(k.startswith(d + "/") for k in tree) and not os.listdir(os.path.join(root, d))]
         if not cand:
             return None
         r = rng.choice(cand)
